@@ -10,6 +10,7 @@ open Mhd.WS Driver
 structure DSt where
   ws : Option WS := none
   lg : Bool := false
+  u8 : Nat := 0        -- the sending application's utf8_step variable (`enc_text … =`)
 
 def hex2 (n : Nat) : String := String.ofList [hexDigit (n / 16 % 16), hexDigit (n % 16)]
 
@@ -43,8 +44,8 @@ def stepLine (s : DSt) (ws : List String) : DSt × List String :=
     | some f, some m, some a, some c =>
       if f < 0x10000 ∧ m < 2 ^ 64 ∧ a < 2 ^ 64 ∧ 1 ≤ c ∧ c ≤ 4 then
         match WS.init f m a with
-        | some w => ({ s with ws := some w }, ["init 0"])
-        | none => ({ s with ws := none }, ["init -4"])
+        | some w => ({ s with ws := some w, u8 := 0 }, ["init 0"])
+        | none => ({ s with ws := none, u8 := 0 }, ["init -4"])
       else bad
     | _, _, _, _ => bad
   | ["rng", h] =>
@@ -88,11 +89,12 @@ def stepLine (s : DSt) (ws : List String) : DSt × List String :=
             ({ s with ws := some w' }, ["f" ++ String.join (calls.map showCall) ++ tailS ++ s!" v={w'.validity}"])
         | none => bad
       | ["enc_text", h, fr, st] =>
-        match bytesOfHex h, fr.toNat?, (if st = "-" then some none else st.toNat?.map some) with
+        match bytesOfHex h, fr.toNat?,
+            (if st = "-" then some none else if st = "=" then some (some s.u8) else st.toNat?.map some) with
         | some bs, some fr, some stp =>
           if fr < 16 ∧ (stp.getD 0) ≤ 100 then
             let (r, so) := encodeText w bs fr stp
-            ({ s with ws := some r.ws }, [showEnc r ++ s!" step={so.getD 0}"])
+            ({ s with ws := some r.ws, u8 := (if stp.isSome then so.getD 0 else s.u8) }, [showEnc r ++ s!" step={so.getD 0}"])
           else bad
         | _, _, _ => bad
       | ["enc_bin", h, fr] =>
